@@ -60,7 +60,7 @@ void vf_harness(void) { Array* a; int m; Array_reserve(a, m); VF_CANARY(); }
     entry='Array_reserve',
     variants=dict(cv([(3, 'm2', ['-DFIX_M=2']), (3, 'm4', ['-DFIX_M=4']), (3, 'm7', ['-DFIX_M=7']), (4, 'm9', ['-DFIX_M=9']), (6, 'm12', ['-DFIX_M=12'])], ['-DSHARED=0']),
                   **cv([(3, 'm7_SHARED', ['-DFIX_M=7'])], ['-DSHARED=1'])),
-    kind='bounded', bound='capacity and requested size fixed per variant; n, rc, contents symbolic', unwind=70,
+    kind='bounded', bound='capacity and requested size fixed per variant; n, rc, contents symbolic', unwind=10,   # no loop on the pinned tree; one over the <= 6 elements is unwound completely
     desc='reserve(m): length, reference count and elements kept, capacity >= max(old, m), no element constructed or destroyed',
     functions=['Array::reserve'],
 )
